@@ -170,6 +170,23 @@ def oracle_pickle(rng):
             byname = {v.name: v for v in p2.all_variables}
             if len(byname) != len(p2.all_variables):
                 return 'duplicate Variable names in a compiled Problem'
+        # 2b. a Variable loaded after clear_variable_indices() keeps the generation it was dumped with: it must not be
+        #     mistaken for a Variable of the new generation (their indices coincide)
+        cl.clear_variable_indices()
+        old = cl.Variable(shape=(2,), name='pg_old')
+        blob = pickle.dumps(old)
+        cl.clear_variable_indices()
+        new = cl.Variable(shape=(2,), name='pg_new')
+        old2 = pickle.loads(blob)
+        if old2.generation != old.generation or list(old2.scalar_variable_ids) != list(old.scalar_variable_ids):
+            return ('a Variable dumped in generation %r was loaded after clear_variable_indices() with generation %r'
+                    % (old.generation, old2.generation))
+        try:
+            pr = cl.Problem(cl.MIN, old2[0] + old2[1] + new[0] + new[1], [old2 >= 1, new >= 2])
+            return ('a model mixing a Variable loaded from an earlier generation with a Variable of the current one (same indices %s) was '
+                    'compiled (%d columns) instead of rejected' % (list(new.scalar_variable_ids), pr.A.shape[1]))
+        except RuntimeError:
+            pass
         # 3. graphs that contain slices (improper Variables) in any order relative to their parent: the components stay
         #    linked to the proper Variable and a model over the loaded objects still compiles (fixed in /repo f0e3c75)
         for trial in range(6):
